@@ -6,7 +6,6 @@ package gkvlite
 // it contributes no code, and is not even parsed unless the build tag is set.
 
 //@ ghost locks (Array Int Int)
-//@ ghost lockdepth Int
 
 // ---------------------------------------------------------------------------
 // Package constants established by init (proved for init, assumed elsewhere;
@@ -207,9 +206,10 @@ package gkvlite
 
 //@ func (*Store).scanBackwardsForMagicEnd
 //@   props C03 C08 C07 C09 C19
+//@   requires [C05,C18] nolocks: locks == emptyLocks()
 //@   from: C03 statement (most recent complete root); C08 (terminates); C07 sentence 1
 //@   requires s != nil && s.file != nil && len(rootsEnd) == 24 && arr(rootsEnd) != arr(MagicEnd) && arr(rootsEnd) != arr(MagicBeg)
-//@   modifies s.size, content(rootsEnd), ghost io.fails, ghost io.reads, ghost src
+//@   modifies s.size, content(rootsEnd), ghost io.fails, ghost io.reads, ghost io.valbytes, ghost src
 //@   ensures [C07] E1: io.fails >= old(io.fails) && (io.fails > old(io.fails) ==> result != nil)
 //@   ensures [C03,C08] landed: result == nil ==> (s.size == 0 && defaultToEmpty && old(s.size) <= 44 || s.size == 0 && defaultToEmpty && old(s.size) > 44 || s.size > 44 && magicEndAt(file[s.file], s.size)) && s.size <= max(old(s.size), 0)
 //@   ensures [C03,C08] skipped-none: result == nil ==> forall p :: s.size < p && p <= old(s.size) && p > 44 ==> !magicEndAt(file[s.file], p)
@@ -217,7 +217,7 @@ package gkvlite
 //@   ensures [C09] never-grows: s.size <= max(old(s.size), 0)
 //@   ensures [C03,C08] not-found: result != nil && io.fails == old(io.fails) ==> !defaultToEmpty && forall p :: p <= old(s.size) && p > 44 ==> !magicEndAt(file[s.file], p)
 //@   ensures [C19] reads-only-trailers: true
-//@   loop 0 modifies s.size, content(rootsEnd), ghost io.fails, ghost io.reads, ghost src
+//@   loop 0 modifies s.size, content(rootsEnd), ghost io.fails, ghost io.reads, ghost io.valbytes, ghost src
 //@   loop 0 invariant s.size <= old(s.size) && io.fails == old(io.fails)
 //@   loop 0 invariant forall p :: s.size < p && p <= old(s.size) && p > 44 ==> !magicEndAt(file[s.file], p)
 //@   loop 0 decreases s.size
@@ -231,6 +231,7 @@ package gkvlite
 
 //@ func (*Store).validateAndSetCollections
 //@   props C03 C02 C08 C17 C19 C12
+//@   requires [C05,C18] nolocks: locks == emptyLocks()
 //@   trusted
 //@   requires s != nil && len(data) >= 20 && src.file[arr(data)] != 0
 //@   requires mirrored: agree(content(data), file[src.file[arr(data)]], src.off[arr(data)] + off(data), off(data), len(data))
@@ -241,9 +242,10 @@ package gkvlite
 
 //@ func (*Store).checkAndReadRoots
 //@   props C03 C02 C08 C07 C09 C19
+//@   requires [C05,C18] nolocks: locks == emptyLocks()
 //@   from: C03 statement: a position is accepted iff a complete self-consistent root record ends there; C07: a file error is an error, not a verdict
 //@   requires s != nil && s.file != nil && len(rootsEnd) == 24 && arr(MagicBeg) != 0
-//@   modifies s.coll, ghost io.fails, ghost io.reads, ghost src
+//@   modifies s.coll, ghost io.fails, ghost io.reads, ghost io.valbytes, ghost src
 //@   ensures [C07] E1: io.fails >= old(io.fails) && (io.fails > old(io.fails) ==> result1 != nil)
 //@   ensures [C07] only-file-errors: result1 != nil ==> io.fails > old(io.fails) && !result0
 //@   ensures [C03,C08] accept: result1 == nil && result0 ==> s.size > 44 && rootFramed(file[s.file], s.size, offset, length)
@@ -254,16 +256,17 @@ package gkvlite
 
 //@ func (*Store).readRootsScan
 //@   props C03 C08 C02 C07 C09 C19
+//@   requires [C05,C18] nolocks: locks == emptyLocks()
 //@   from: C03 statement "re-opening yields the most recent Flush all of whose writes completed"; C08 "terminates"; C07 sentence 1
 //@   requires s != nil && s.file != nil
-//@   modifies s.size, s.coll, ghost io.fails, ghost io.reads, ghost src
+//@   modifies s.size, s.coll, ghost io.fails, ghost io.reads, ghost io.valbytes, ghost src
 //@   ensures [C07] E1: io.fails >= old(io.fails) && (io.fails > old(io.fails) ==> err != nil)
 //@   ensures [C03,C08,C02] lands-on-valid: err == nil && s.size > 0 ==> validRootEndingAt(file[s.file], s.size) && s.size <= old(s.size)
 //@   ensures [C03,C08,C02] greatest: err == nil ==> forall p :: s.size < p && p <= old(s.size) ==> !validRootEndingAt(file[s.file], p)
 //@   ensures [C08,C03] empty-only-if-asked: err == nil && s.size <= 0 ==> defaultToEmpty && s.size == 0
 //@   ensures [C03] none-found: err != nil && io.fails == old(io.fails) ==> forall p :: p <= old(s.size) ==> !validRootEndingAt(file[s.file], p)
 //@   ensures [C09] never-grows: s.size <= max(old(s.size), 0)
-//@   loop 0 modifies s.size, s.coll, content(rootsEnd), ghost io.fails, ghost io.reads, ghost src
+//@   loop 0 modifies s.size, s.coll, content(rootsEnd), ghost io.fails, ghost io.reads, ghost io.valbytes, ghost src
 //@   loop 0 invariant [C07] no-io-failure-so-far: io.fails == old(io.fails)
 //@   loop 0 invariant bounds: s.size <= max(old(s.size), 0)
 //@   loop 0 invariant [C03,C08] none-above: forall p :: s.size < p && p <= old(s.size) ==> !validRootEndingAt(file[s.file], p)
@@ -274,6 +277,7 @@ package gkvlite
 
 //@ func (*nodeLoc).write
 //@   props C14 C02 C03 C09 C13 C07
+//@   requires [C05,C18] nolocks: locks == emptyLocks()
 //@   from: C14 node record layout; C02 P3 (offset/length/size bookkeeping exact); C09 W1 (append only); C07 E3 (a failed write changes nothing)
 //@   requires nloc != nil && o != nil && o.file != nil && o.size >= 0
 //@   modifies nloc.loc, o.size, new ploc.Offset, new ploc.Length, ghost file, ghost flen, ghost io.fails, ghost io.writes, ghost io.minoff
@@ -306,7 +310,8 @@ package gkvlite
 //@   ensures net[i] == old(net[i]) + 1 && (forall j :: j != i ==> net[j] == old(net[j]))
 
 //@ functype StoreCallbacks.ItemDecRef(c, i) ()
-//@   requires [C15] held: net[i] >= 1
+//@   from: called under rootLock+freeNodeLock by freeNodeUnlocked by design; A9 therefore forbids re-entering gkvlite from it
+//@   lockexempt
 //@   modifies ghost net
 //@   ensures net[i] == old(net[i]) - 1 && (forall j :: j != i ==> net[j] == old(net[j]))
 
@@ -338,6 +343,7 @@ package gkvlite
 
 //@ func (*Store).ItemAlloc
 //@   props C17 C15
+//@   requires [C05,C18] nolocks: locks == emptyLocks()
 //@   requires s != nil
 //@   modifies new Item.Key, new Item.Val, new Item.Priority, new Item.Transient, new mem.byte, ghost net
 //@   ensures [C17,C15] shape: result != nil ==> fresh(result) && len(result.Key) == keyLength && fresh(result.Key) && result.Val == nil
@@ -347,6 +353,7 @@ package gkvlite
 
 //@ func (*Store).ItemAddRef
 //@   props C17 C15
+//@   requires [C05,C18] nolocks: locks == emptyLocks()
 //@   requires s != nil
 //@   modifies ghost net
 //@   ensures [C15] counted: s.callbacks.ItemAddRef != nil ==> net[i] == old(net[i]) + 1
@@ -364,6 +371,7 @@ package gkvlite
 
 //@ func (*Store).ItemValRead
 //@   props C17 C19 C02 C07 C09
+//@   requires [C05,C18] nolocks: locks == emptyLocks()
 //@   requires s != nil && i != nil && r != nil
 //@   modifies i.Val, new mem.byte, ghost io.fails, ghost io.reads, ghost io.valbytes, ghost src
 //@   ensures [C07] E1: io.fails >= old(io.fails) && (io.fails > old(io.fails) ==> result != nil)
@@ -372,6 +380,7 @@ package gkvlite
 
 //@ func (*Store).ItemValWrite
 //@   props C17 C02 C14 C09 C07 C03
+//@   requires [C05,C18] nolocks: locks == emptyLocks()
 //@   requires s != nil && i != nil && w != nil && c != nil && c.store == s
 //@   relies neutral-length: s.callbacks.ItemValLength != nil && s.callbacks.ItemValWrite == nil ==> cbvlen(i) == len(i.Val)
 //@   modifies ghost file, ghost flen, ghost io.fails, ghost io.writes, ghost io.minoff
@@ -387,16 +396,19 @@ package gkvlite
 
 //@ func (*Item).NumValBytes
 //@   props C17 C13 C14
+//@   requires [C05,C18] nolocks: locks == emptyLocks()
 //@   requires i != nil && c != nil && c.store != nil
 //@   ensures [C17,C13] result == vlenOf(c.store, i) && result >= 0
 
 //@ func (*Item).NumBytes
 //@   props C17 C13
+//@   requires [C05,C18] nolocks: locks == emptyLocks()
 //@   requires i != nil && c != nil && c.store != nil
 //@   ensures [C17,C13] result == len(i.Key) + vlenOf(c.store, i)
 
 //@ func (*itemLoc).NumBytes
 //@   props C13 C17
+//@   requires [C05,C18] nolocks: locks == emptyLocks()
 //@   requires iloc != nil && c != nil && c.store != nil
 //@   ensures [C13] persisted: !emptyLoc(iloc.loc) ==> result == iloc.loc.Length - 16
 //@   ensures [C13,C17] unpersisted: emptyLoc(iloc.loc) && iloc.item != nil ==> result == len(iloc.item.Key) + vlenOf(c.store, iloc.item)
@@ -413,6 +425,7 @@ package gkvlite
 
 //@ func (*itemLoc).write
 //@   props C14 C02 C03 C09 C07 C17
+//@   requires [C05,C18] nolocks: locks == emptyLocks()
 //@   from: C14 item record layout; C02 P3; C09 W1; C07 E3; C17 (value length from the callback, not len(Val))
 //@   requires iloc != nil && c != nil && c.store != nil && c.store.file != nil && c.store.size >= 0
 //@   relies u32-limit: iloc.item != nil ==> 16 + len(iloc.item.Key) + vlenOf(c.store, iloc.item) < 4294967296
@@ -430,6 +443,7 @@ package gkvlite
 
 //@ func (*itemLoc).read
 //@   props C01 C02 C14 C19 C15 C17 C07 C09
+//@   requires [C05,C18] nolocks: locks == emptyLocks()
 //@   from: C14 item record layout (decoder side of P1); C19 "key-only operations never read a byte of any item's value"; C15 accounting; C07 E1
 //@   requires c != nil && c.store != nil
 //@   requires iloc != nil && !emptyLoc(iloc.loc) ==> c.store.file != nil
@@ -449,3 +463,238 @@ package gkvlite
 //@   ensures [C15] slot-backed: refcb(c.store) && err == nil && iloc != nil && iloc.item != nil ==> net[iloc.item] >= 1
 //@   ensures [C15] balance-loaded: refcb(c.store) && err == nil && icur != nil && fresh(icur) ==> net[icur] == 1 && (forall j :: j != icur && j != old(iloc.item) ==> net[j] == old(net[j])) && (old(iloc.item) != nil ==> net[old(iloc.item)] == old(net[old(iloc.item)]) - 1)
 //@   ensures [C15] balance-failed: refcb(c.store) && err != nil ==> forall j :: !fresh(j) ==> net[j] == old(net[j])
+
+//@ func (*nodeLoc).read
+//@   props C01 C02 C13 C14 C19 C07 C09
+//@   requires [C05,C18] nolocks: locks == emptyLocks()
+//@   from: C14 node record layout (decoder side of P1); C19 (one 52-byte read of the node record, no value bytes); C07 E1
+//@   requires o != nil
+//@   requires nloc != nil && nloc.node == nil && !emptyLoc(nloc.loc) ==> o.file != nil
+//@   relies node-record-has-no-value-bytes: nloc != nil && !emptyLoc(nloc.loc) ==> noValueIn(file[o.file], nloc.loc.Offset, nloc.loc.Offset + 52)
+//@   modifies nloc.node, o.nodeAllocs, new ploc.Offset, new ploc.Length, new node.numNodes, new node.numBytes, new node.next, new itemLoc.loc, new itemLoc.item, new nodeLoc.loc, new nodeLoc.node, new nodeLoc.next, new mem.byte, ghost io.fails, ghost io.reads, ghost io.valbytes, ghost src
+//@   ensures [C07] E1: io.fails >= old(io.fails) && (io.fails > old(io.fails) ==> err != nil)
+//@   ensures [C01] nil-or-empty: nloc == nil || (old(nloc.node) == nil && emptyLoc(nloc.loc)) ==> n == nil && err == nil && io.reads == old(io.reads)
+//@   ensures [C01,C19] cache-hit: nloc != nil && old(nloc.node) != nil ==> n == old(nloc.node) && err == nil && io.reads == old(io.reads) && nloc.node == old(nloc.node)
+//@   ensures [C19] no-value-bytes: io.valbytes == old(io.valbytes)
+//@   ensures [C19] at-most-one-read: io.reads <= old(io.reads) + 1
+//@   ensures [C07] failed-changes-nothing: err != nil ==> nloc == nil || nloc.node == old(nloc.node)
+//@   ensures [C02,C14] loaded: nloc != nil && old(nloc.node) == nil && !emptyLoc(nloc.loc) && err == nil ==> n != nil && fresh(n) && nloc.node == n && nloc.loc.Length == 52
+//@   ensures [C02,C14] loaded-item: nloc != nil && old(nloc.node) == nil && !emptyLoc(nloc.loc) && err == nil ==> plocRecAt(file[o.file], nloc.loc.Offset, locOff(n.item.loc), locLen(n.item.loc)) && (n.item.loc == nil || !emptyLoc(n.item.loc)) && n.item.item == nil
+//@   ensures [C02,C14] loaded-left: nloc != nil && old(nloc.node) == nil && !emptyLoc(nloc.loc) && err == nil ==> plocRecAt(file[o.file], nloc.loc.Offset + 12, locOff(n.left.loc), locLen(n.left.loc)) && (n.left.loc == nil || !emptyLoc(n.left.loc)) && n.left.node == nil
+//@   ensures [C02,C14] loaded-right: nloc != nil && old(nloc.node) == nil && !emptyLoc(nloc.loc) && err == nil ==> plocRecAt(file[o.file], nloc.loc.Offset + 24, locOff(n.right.loc), locLen(n.right.loc)) && (n.right.loc == nil || !emptyLoc(n.right.loc)) && n.right.node == nil
+//@   ensures [C02,C14,C13] loaded-aggregates: nloc != nil && old(nloc.node) == nil && !emptyLoc(nloc.loc) && err == nil ==> n.numNodes == fbe64(file[o.file], nloc.loc.Offset + 36) && n.numBytes == fbe64(file[o.file], nloc.loc.Offset + 44) && n.next == nil
+
+// ---------------------------------------------------------------------------
+// store.go: the root record
+
+//@ extern encoding/json.Marshal(v) (b, err)
+//@   from: A8 (library): produces fresh bytes; its reflection calls rootNodeLoc.MarshalJSON, which only reads
+//@   modifies new mem.byte
+//@   ensures err == nil ==> b != nil && fresh(b) && len(b) >= 2
+//@   ensures err != nil ==> true
+
+//@ func (*Store).writeRoots
+//@   props C14 C02 C03 C09 C07
+//@   requires [C05,C18] nolocks: locks == emptyLocks()
+//@   from: C14 "root records framed by doubled magic markers carrying version, length and the JSON map"; C03 Q1 (one WriteAt, size advanced only on success); C09 W1
+//@   requires s != nil && s.file != nil && s.size >= 0
+//@   relies u32-limit: true
+//@   modifies s.size, new mem.byte, ghost file, ghost flen, ghost io.fails, ghost io.writes, ghost io.minoff
+//@   ensures [C07] E1: io.fails >= old(io.fails) && (io.fails > old(io.fails) ==> result != nil)
+//@   ensures [C07,C03] E3: result != nil ==> s.size == old(s.size)
+//@   ensures [C03] single-commit-write: io.writes <= old(io.writes) + 1 && (result == nil ==> io.writes == old(io.writes) + 1)
+//@   ensures [C02,C14] grows: result == nil ==> s.size >= old(s.size) + 46 && s.size - old(s.size) < 4294967296 ==> true
+//@   ensures [C14,C02,C03] header: result == nil && s.size - old(s.size) < 4294967296 ==> magicBegAt(file[s.file], old(s.size)) && fbe32(file[s.file], old(s.size) + 12) == 4 && fbe32(file[s.file], old(s.size) + 16) == s.size - old(s.size)
+//@   ensures [C14,C02,C03] trailer: result == nil && s.size - old(s.size) < 4294967296 ==> magicEndAt(file[s.file], s.size) && fbe64(file[s.file], s.size - 24) == old(s.size) && fbe32(file[s.file], s.size - 16) == s.size - old(s.size)
+//@   ensures [C09,C03] append-only: io.minoff[s.file] >= min(old(io.minoff[s.file]), old(s.size)) && samePrefix(file[s.file], old(file[s.file]), old(s.size))
+//@   ensures [C09] other-files: forall f :: f != s.file ==> file[f] == old(file[f]) && flen[f] == old(flen[f]) && io.minoff[f] == old(io.minoff[f])
+
+// ===========================================================================
+// node.go / alloc.go: nodeLoc helpers, allocators and the reclaim protocol (C10 local obligations, C05 lock discipline)
+
+//@ global emptyNodeLoc.loc == nil && emptyNodeLoc.node == nil && emptyNodeLoc.next == nil
+
+//@ func (*nodeLoc).isEmpty
+//@   props C01 C02
+//@   ensures result == emptyNL(nloc)
+
+//@ func (*nodeLoc).Copy
+//@   props C01 C10
+//@   requires nloc != nil
+//@   modifies nloc.loc, nloc.node
+//@   decreases src == nil ? 1 : 0
+//@   ensures result == nloc
+//@   ensures src != nil ==> nloc.loc == old(src.loc) && nloc.node == old(src.node)
+//@   ensures src == nil ==> nloc.loc == nil && nloc.node == nil
+
+//@ functype withAllocLocks.cb() ()
+//@   from: the callback runs under the three allocator locks by design (only used to copy statistics)
+//@   lockexempt
+//@   modifies cell.Int, cell.Bool
+
+//@ func withAllocLocks
+//@   props C05
+//@   requires cb != nil && locks == emptyLocks()
+//@   modifies cell.Int, cell.Bool
+
+//@ func (*Collection).markReclaimable
+//@   props C10 C05 C04
+//@   from: code; C10 R1/R5: a mark is set only on an unmarked node and never on the sentinel itself
+//@   requires t != nil && t.rootLock != nil && locks == emptyLocks()
+//@   modifies n.next
+//@   ensures [C10] marks-only-unmarked: n != nil && old(n.next) == nil && n != reclaimMark ==> n.next == reclaimMark
+//@   ensures [C10] otherwise-unchanged: n != nil && !(old(n.next) == nil && n != reclaimMark) ==> n.next == old(n.next)
+
+//@ func (*Collection).mkNodeLoc
+//@   props C10 C05 C01
+//@   from: code; A13: the result is either new or taken from the free list
+//@   requires t != nil && locks[freeNodeLocLock] == 0
+//@   modifies nodeLoc.loc, nodeLoc.node, nodeLoc.next, G.freeNodeLocs, AllocStats.MkNodeLocs, AllocStats.AllocNodeLocs, AllocStats.CurFreeNodeLocs
+//@   ensures [C10] init: result != nil && result.loc == nil && result.node == n && result.next == nil
+//@   proves [C10] R6-source: fresh(result) || (result == old(freeNodeLocs) && freeNodeLocs == old(result.next))
+//@   ensures [C10] R6-others-untouched: forall x :: x != result ==> nodeLoc.loc[x] == old(nodeLoc.loc[x]) && nodeLoc.node[x] == old(nodeLoc.node[x]) && nodeLoc.next[x] == old(nodeLoc.next[x])
+//@   postulate A13-fresh: fresh(result)
+
+//@ func (*Collection).freeNodeLoc
+//@   props C10 C05
+//@   requires t != nil && locks[freeNodeLocLock] == 0
+//@   requires [C10] no-double-free: nloc == nil || nloc == emptyNodeLoc || nloc.next == nil
+//@   modifies nloc.loc, nloc.node, nloc.next, G.freeNodeLocs, AllocStats.CurFreeNodeLocs, AllocStats.FreeNodeLocs
+//@   ensures [C10] nloc != nil && nloc != emptyNodeLoc ==> nloc.loc == nil && nloc.node == nil && nloc.next == old(freeNodeLocs) && freeNodeLocs == nloc
+//@   ensures [C10] sentinel-kept: nloc == nil || nloc == emptyNodeLoc ==> freeNodeLocs == old(freeNodeLocs)
+
+//@ func (*Collection).mkRootNodeLoc
+//@   props C10 C05 C04
+//@   requires t != nil && locks[freeRootNodeLocLock] == 0
+//@   modifies rootNodeLoc.refs, rootNodeLoc.root, rootNodeLoc.next, rootNodeLoc.chainedCollection, rootNodeLoc.chainedRootNodeLoc, mem.Int, G.freeRootNodeLocs, AllocStats.MkRootNodeLocs, AllocStats.AllocRootNodeLocs, AllocStats.CurFreeRootNodeLocs
+//@   ensures [C10] init: result != nil && result.refs == 1 && result.root == root && result.next == nil && result.chainedCollection == nil && result.chainedRootNodeLoc == nil && result.reclaimLater[0] == nil && result.reclaimLater[1] == nil && result.reclaimLater[2] == nil
+//@   proves [C10] R6-source: fresh(result) || result == old(freeRootNodeLocs)
+//@   ensures [C10] others-untouched: forall x :: x != result ==> rootNodeLoc.refs[x] == old(rootNodeLoc.refs[x]) && rootNodeLoc.root[x] == old(rootNodeLoc.root[x]) && rootNodeLoc.chainedCollection[x] == old(rootNodeLoc.chainedCollection[x]) && rootNodeLoc.chainedRootNodeLoc[x] == old(rootNodeLoc.chainedRootNodeLoc[x])
+//@   postulate A13-fresh: fresh(result)
+//@   loop 0 modifies mem.Int
+//@   loop 0 invariant 0 <= i && i <= 3 && rnl != nil && (forall k in 0..i :: rnl.reclaimLater[k] == nil) && rnl.refs == 1 && rnl.root == root && rnl.next == nil && rnl.chainedCollection == nil && rnl.chainedRootNodeLoc == nil
+//@   loop 0 decreases 3 - i
+
+//@ func (*Collection).freeRootNodeLoc
+//@   props C10 C05
+//@   requires t != nil && locks[freeRootNodeLocLock] == 0
+//@   requires [C10] no-double-free: rnl == nil || rnl.next == nil
+//@   requires [C10] nothing-left-to-reclaim: rnl == nil || (rnl.reclaimLater[0] == nil && rnl.reclaimLater[1] == nil && rnl.reclaimLater[2] == nil)
+//@   modifies rnl.refs, rnl.root, rnl.next, rnl.chainedCollection, rnl.chainedRootNodeLoc, G.freeRootNodeLocs, AllocStats.CurFreeRootNodeLocs, AllocStats.FreeRootNodeLocs
+//@   ensures [C10] rnl != nil ==> rnl.refs == 0 && rnl.root == nil && rnl.chainedCollection == nil && rnl.chainedRootNodeLoc == nil && rnl.next == old(freeRootNodeLocs) && freeRootNodeLocs == rnl
+//@   loop 0 invariant 0 <= i && i <= 3
+//@   loop 0 decreases 3 - i
+
+//@ func (*Collection).mkNode
+//@   props C10 C05 C15 C13 C01 C17
+//@   from: code; C10 R6 (a node comes from the free list or is new, every field is overwritten); C15 (the copied item slot takes a reference); C13 (aggregates are stored as given)
+//@   requires t != nil && t.store != nil && locks == emptyLocks()
+//@   relies A13-free-list-head-is-unreferenced: freeNodes != nil ==> leftIn != ref(freeNodes.left) && leftIn != ref(freeNodes.right) && rightIn != ref(freeNodes.left) && rightIn != ref(freeNodes.right) && itemIn != ref(freeNodes.item)
+//@   modifies node.numNodes, node.numBytes, node.next, itemLoc.loc, itemLoc.item, nodeLoc.loc, nodeLoc.node, G.freeNodes, AllocStats.MkNodes, AllocStats.AllocNodes, AllocStats.CurFreeNodes, t.store.nodeAllocs, ghost net
+//@   ensures [C10,C13] init: result != nil && result.numNodes == numNodesIn && result.numBytes == numBytesIn && result.next == nil
+//@   ensures [C10,C01] item-copied: (itemIn != nil ==> result.item.loc == old(itemIn.loc) && result.item.item == old(itemIn.item)) && (itemIn == nil ==> result.item.loc == nil && result.item.item == nil)
+//@   ensures [C10,C01] left-copied: (leftIn != nil ==> result.left.loc == old(leftIn.loc) && result.left.node == old(leftIn.node)) && (leftIn == nil ==> result.left.loc == nil && result.left.node == nil)
+//@   ensures [C10,C01] right-copied: (rightIn != nil ==> result.right.loc == old(rightIn.loc) && result.right.node == old(rightIn.node)) && (rightIn == nil ==> result.right.loc == nil && result.right.node == nil)
+//@   proves [C10] R6-source: fresh(result) || (result == old(freeNodes) && freeNodes == old(result.next))
+//@   ensures [C10] R6-others-untouched: forall m :: m != result ==> node.numNodes[m] == old(node.numNodes[m]) && node.numBytes[m] == old(node.numBytes[m]) && node.next[m] == old(node.next[m])
+//@   ensures [C10] R6-other-slots-untouched: (forall x :: x != ref(result.left) && x != ref(result.right) ==> nodeLoc.loc[x] == old(nodeLoc.loc[x]) && nodeLoc.node[x] == old(nodeLoc.node[x])) && (forall y :: y != ref(result.item) ==> itemLoc.loc[y] == old(itemLoc.loc[y]) && itemLoc.item[y] == old(itemLoc.item[y]))
+//@   ensures [C15] slot-takes-a-reference: itemIn != nil && old(itemIn.item) != nil && t.store.callbacks.ItemAddRef != nil ==> net[old(itemIn.item)] == old(net[old(itemIn.item)]) + 1
+//@   ensures [C15] nothing-else-counted: forall j :: (itemIn == nil || j != old(itemIn.item)) ==> net[j] == old(net[j])
+//@   postulate A13-fresh: fresh(result)
+
+//@ func (*Collection).freeNodeUnlocked
+//@   props C10 C05 C15
+//@   from: code; C10 R5/R6 (no double free; every field is cleared; pushed on the free list); C15 (the slot's reference is released)
+//@   requires t != nil && t.store != nil
+//@   requires [C10] no-double-free: n == nil || n == reclaimMark || n.next == nil || n.next == reclaimMark
+//@   relies [C15] slot-holds-ref: n != nil && n != reclaimMark && n.item.item != nil && refcb(t.store) ==> net[n.item.item] >= 1
+//@   modifies n.numNodes, n.numBytes, n.next, n.item, n.left, n.right, G.freeNodes, AllocStats.CurFreeNodes, AllocStats.FreeNodes, ghost net
+//@   ensures [C10] cleared-and-listed: n != nil && n != reclaimMark ==> n.numNodes == 0 && n.numBytes == 0 && n.item.loc == nil && n.item.item == nil && n.left.loc == nil && n.left.node == nil && n.right.loc == nil && n.right.node == nil && n.next == old(freeNodes) && freeNodes == n
+//@   ensures [C10] sentinel-kept: n == nil || n == reclaimMark ==> freeNodes == old(freeNodes) && net == old(net)
+//@   ensures [C15] slot-reference-released: n != nil && n != reclaimMark && old(n.item.item) != nil && t.store.callbacks.ItemDecRef != nil ==> net[old(n.item.item)] == old(net[old(n.item.item)]) - 1
+//@   ensures [C15] nothing-else-released: forall j :: (n == nil || n == reclaimMark || j != old(n.item.item)) ==> net[j] == old(net[j])
+
+//@ func (*Collection).reclaimMarkUpdate
+//@   props C10 C05 C04 C07
+//@   from: code; C10 R2/R3: only nodes carrying the old mark are re-marked, along the tree below nloc
+//@   requires t != nil && t.rootLock != nil && locks == emptyLocks()
+//@   relies acyclic: nloc != nil && nloc.node != nil ==> rank(nloc.node) >= 0 && (nloc.node.left.node != nil ==> rank(nloc.node.left.node) < rank(nloc.node)) && (nloc.node.right.node != nil ==> rank(nloc.node.right.node) < rank(nloc.node))
+//@   modifies node.next
+//@   decreases (emptyNL(nloc) || nloc.node == nil) ? 0 : rank(nloc.node) + 1
+//@   ensures result == (emptyNL(nloc) ? nil : nloc.node)
+//@   ensures [C10] only-old-marks-move: forall m: *node :: m.next != old(m.next) ==> old(m.next) == oldReclaimMark && m.next == newReclaimMark
+//@   ensures [C10] root-remarked: !emptyNL(nloc) && nloc.node != nil && old(nloc.node.next) == oldReclaimMark ==> nloc.node.next == newReclaimMark
+
+//@ func (*Collection).reclaimNodesUnlocked
+//@   props C10 C05 C15 C07
+//@   from: code; C10 R5: only nodes carrying this version's mark are freed
+//@   requires t != nil && t.store != nil && reclaimMark != nil
+//@   relies acyclic: n != nil ==> rank(n) >= 0 && (n.left.node != nil ==> rank(n.left.node) < rank(n)) && (n.right.node != nil ==> rank(n.right.node) < rank(n))
+//@   modifies node.numNodes, node.numBytes, node.next, itemLoc.loc, itemLoc.item, nodeLoc.loc, nodeLoc.node, nodeLoc.next, elems(reclaimLater), G.freeNodes, AllocStats.CurFreeNodes, AllocStats.FreeNodes, ghost net
+//@   decreases n == nil ? 0 : rank(n) + 1
+//@   ensures [C10] R5-only-marked-are-freed: forall m: *node :: m.next != old(m.next) ==> old(m.next) == reclaimMark
+//@   ensures [C10] R5-unmarked-root-kept: n != nil && old(n.next) != reclaimMark ==> result == 0 && freeNodes == old(freeNodes) && net == old(net)
+//@   ensures [C10] standalone-locs-untouched: forall x :: standaloneNL(x) ==> nodeLoc.loc[x] == old(nodeLoc.loc[x]) && nodeLoc.node[x] == old(nodeLoc.node[x]) && nodeLoc.next[x] == old(nodeLoc.next[x])
+//@   ensures result >= 0
+//@   loop 0 modifies elems(reclaimLater)
+//@   loop 0 invariant 0 <= i && i <= 3
+//@   loop 0 decreases 3 - i
+
+// ===========================================================================
+// collection.go: reference-counted root versions (C04, C05 L4, C10 R4/R5/R7, C18 K2)
+
+//@ func (*Collection).Name
+//@   inline
+
+//@ func (*Collection).rootAddRef
+//@   props C04 C05 C10 C18
+//@   from: code; C05 L1/L4 (the root pointer and its count are read and bumped under rootLock, once)
+//@   requires t != nil && t.rootLock != nil && locks == emptyLocks()
+//@   requires [C07] open-handle: t.root != nil
+//@   modifies rootNodeLoc.refs
+//@   ensures [C05,C04] pinned: result == t.root && result != nil && result.refs == old(result.refs) + 1 && t.root == old(t.root)
+//@   ensures [C05] only-that-count: forall x :: x != result ==> rootNodeLoc.refs[x] == old(rootNodeLoc.refs[x])
+
+//@ func (*Collection).rootDecRefUnlocked
+//@   props C04 C05 C10 C15 C18
+//@   from: code; C10 R5: nothing is reclaimed while the version is still referenced; at zero only nodes carrying this version's mark are freed
+//@   requires t != nil && t.store != nil && r != nil && locks[freeNodeLocLock] == 0 && locks[freeRootNodeLocLock] == 0
+//@   relies live-version-has-a-root: r.refs <= 1 ==> r.root != nil
+//@   relies chain-is-well-founded: r.chainedRootNodeLoc != nil ==> chainlen(r.chainedRootNodeLoc) < chainlen(r) && chainlen(r.chainedRootNodeLoc) >= 0
+//@   relies chained-collection-is-well-formed: r.chainedCollection != nil ==> r.chainedCollection.store != nil
+//@   relies not-on-the-free-list: r.next == nil
+//@   relies root-loc-not-on-the-free-list: r.root != nil ==> r.root.next == nil && standaloneNL(r.root)
+//@   relies chained-version-is-distinct: r.chainedRootNodeLoc != r
+//@   modifies rootNodeLoc.refs, rootNodeLoc.root, rootNodeLoc.next, rootNodeLoc.chainedCollection, rootNodeLoc.chainedRootNodeLoc, node.numNodes, node.numBytes, node.next, itemLoc.loc, itemLoc.item, nodeLoc.loc, nodeLoc.node, nodeLoc.next, mem.Int, G.freeNodes, G.freeNodeLocs, G.freeRootNodeLocs, AllocStats.CurFreeNodes, AllocStats.FreeNodes, AllocStats.CurFreeNodeLocs, AllocStats.FreeNodeLocs, AllocStats.CurFreeRootNodeLocs, AllocStats.FreeRootNodeLocs, ghost net
+//@   decreases chainlen(r) + 1
+//@   ensures [C10,C04] R5-still-referenced-means-untouched: old(r.refs) > 1 ==> r.refs == old(r.refs) - 1 && freeNodes == old(freeNodes) && freeNodeLocs == old(freeNodeLocs) && freeRootNodeLocs == old(freeRootNodeLocs) && net == old(net) && node.next == old(node.next) && nodeLoc.node == old(nodeLoc.node) && nodeLoc.loc == old(nodeLoc.loc) && itemLoc.item == old(itemLoc.item) && rootNodeLoc.root == old(rootNodeLoc.root)
+//@   ensures [C10] R5-only-this-count: old(r.refs) > 1 ==> forall x :: x != r ==> rootNodeLoc.refs[x] == old(rootNodeLoc.refs[x])
+//@   loop 0 modifies node.numNodes, node.numBytes, node.next, itemLoc.loc, itemLoc.item, nodeLoc.loc, nodeLoc.node, nodeLoc.next, r.reclaimLater, G.freeNodes, AllocStats.CurFreeNodes, AllocStats.FreeNodes, ghost net
+//@   after (*Collection).rootDecRefUnlocked.0 assumes r.root == old(r.root) && r.next == old(r.next) && r.refs == old(r.refs) && (r.root != nil ==> r.root.next == old(r.root.next) && r.root.node == old(r.root.node)) && r.reclaimLater[0] == old(r.reclaimLater[0]) && r.reclaimLater[1] == old(r.reclaimLater[1]) && r.reclaimLater[2] == old(r.reclaimLater[2])
+//@   loop 0 invariant bounds: 0 <= i && i <= 3
+//@   loop 0 invariant [C10] ready-to-free: (forall k in 0..i :: r.reclaimLater[k] == nil) && r.next == nil && r.root != nil && r.root.next == nil
+//@   loop 0 decreases 3 - i
+
+//@ func (*Collection).rootDecRef
+//@   props C04 C05 C10 C18
+//@   requires t != nil && t.rootLock != nil && t.store != nil && r != nil && locks == emptyLocks()
+//@   relies root-lock-is-private: t.rootLock != ref(freeNodeLock) && t.rootLock != ref(freeNodeLocLock) && t.rootLock != ref(freeRootNodeLocLock)
+//@   relies live-version-has-a-root: r.refs <= 1 ==> r.root != nil
+//@   relies chain-is-well-founded: r.chainedRootNodeLoc != nil ==> chainlen(r.chainedRootNodeLoc) < chainlen(r) && chainlen(r.chainedRootNodeLoc) >= 0
+//@   relies chained-collection-is-well-formed: r.chainedCollection != nil ==> r.chainedCollection.store != nil
+//@   relies not-on-the-free-list: r.next == nil
+//@   relies root-loc-not-on-the-free-list: r.root != nil ==> r.root.next == nil
+//@   modifies rootNodeLoc.refs, rootNodeLoc.root, rootNodeLoc.next, rootNodeLoc.chainedCollection, rootNodeLoc.chainedRootNodeLoc, node.numNodes, node.numBytes, node.next, itemLoc.loc, itemLoc.item, nodeLoc.loc, nodeLoc.node, nodeLoc.next, mem.Int, G.freeNodes, G.freeNodeLocs, G.freeRootNodeLocs, AllocStats.CurFreeNodes, AllocStats.FreeNodes, AllocStats.CurFreeNodeLocs, AllocStats.FreeNodeLocs, AllocStats.CurFreeRootNodeLocs, AllocStats.FreeRootNodeLocs, ghost net
+//@   ensures [C10,C04,C05] R5-still-referenced-means-untouched: old(r.refs) > 1 ==> r.refs == old(r.refs) - 1 && freeNodes == old(freeNodes) && freeNodeLocs == old(freeNodeLocs) && freeRootNodeLocs == old(freeRootNodeLocs) && net == old(net) && node.next == old(node.next) && nodeLoc.node == old(nodeLoc.node) && nodeLoc.loc == old(nodeLoc.loc) && itemLoc.item == old(itemLoc.item) && rootNodeLoc.root == old(rootNodeLoc.root)
+//@   ensures [C10] R5-only-this-count: old(r.refs) > 1 ==> forall x :: x != r ==> rootNodeLoc.refs[x] == old(rootNodeLoc.refs[x])
+
+//@ func (*Collection).rootCAS
+//@   props C04 C05 C10 C12
+//@   from: code; C10 R4 (a still-referenced predecessor is chained to its successor, which then counts one more reference)
+//@   requires t != nil && t.rootLock != nil && next != nil && locks == emptyLocks()
+//@   relies a-current-version-has-never-been-superseded: prev != nil && prev == t.root ==> prev.chainedCollection == nil && prev.chainedRootNodeLoc == nil
+//@   modifies t.root, rootNodeLoc.chainedCollection, rootNodeLoc.chainedRootNodeLoc, rootNodeLoc.refs
+//@   ensures [C05,C04] swapped-iff-current: result == (old(t.root) == prev) && (result ==> t.root == next) && (!result ==> t.root == old(t.root))
+//@   ensures [C10] R4-chain: result && prev != nil && old(prev.refs) > 2 && prev != next ==> prev.chainedCollection == t && prev.chainedRootNodeLoc == next && next.refs == old(next.refs) + 1
+//@   ensures [C10] R4-no-chain: result && (prev == nil || old(prev.refs) <= 2) ==> rootNodeLoc.refs == old(rootNodeLoc.refs) && rootNodeLoc.chainedRootNodeLoc == old(rootNodeLoc.chainedRootNodeLoc) && rootNodeLoc.chainedCollection == old(rootNodeLoc.chainedCollection)
+//@   ensures [C05] failed-changes-nothing: !result ==> rootNodeLoc.refs == old(rootNodeLoc.refs) && rootNodeLoc.chainedRootNodeLoc == old(rootNodeLoc.chainedRootNodeLoc) && rootNodeLoc.chainedCollection == old(rootNodeLoc.chainedCollection)
